@@ -108,15 +108,16 @@ class Tab:
     """hash-consing table for case files: every distinct string / attribute dict becomes one
     `Definition`, the case terms only name them (string literals are what makes coqc slow)"""
 
-    def __init__(self):
+    def __init__(self, prefix=''):
         self.strs = {}
         self.attr = {}
         self.order = []
+        self.prefix = prefix
 
     def s(self, text):
         n = self.strs.get(text)
         if n is None:
-            n = 's%d' % len(self.strs)
+            n = '%ss%d' % (self.prefix, len(self.strs))
             self.strs[text] = n
             self.order.append('Definition %s := %s.' % (n, lit.s(text)))
         return n
@@ -147,7 +148,7 @@ class Tab:
         n = self.attr.get(key)
         if n is None:
             body = lit.lst([lit.pair(self.s(k), self.val(v)) for k, v in a])
-            n = 'a%d' % len(self.attr)
+            n = '%sa%d' % (self.prefix, len(self.attr))
             self.attr[key] = n
             self.order.append('Definition %s : attrs := %s.' % (n, body))
         return n
@@ -382,3 +383,96 @@ def rand_multilevel(rng, levels, last_all_atom, squash=False):
 
 def join_blocks(base, blocks):
     return base + ''.join('.{' + ','.join(b) + '}' for b in blocks)
+
+
+# ------------------------------------------------------------------------------- prop base class
+import common  # noqa: E402
+
+
+class StepProp(common.Prop):
+    """Base of the resolver-core checks.  Case terms are large, so every case comes with its own
+    hash-consing `Definition`s; the generic flow writes `case_requires` once per shard, in shard
+    order, right before the shard's cases - the property below hands out the definitions of exactly
+    the cases of that shard (run_impl is called for every case of a round before the round's shards
+    are written, in the same order)."""
+    shard = 10
+    header = HEADER
+    extra_requires = ''
+
+    def __init__(self):
+        self._round = []      # definitions per case of the current round, in run_impl order
+        self._terms = []      # Gallina term per case of the current round
+        self._shard_i = 0
+        self._n = 0
+        self._reccache = {}
+
+    def begin_round(self):
+        self._round, self._terms, self._shard_i = [], [], 0
+
+    def new_tab(self):
+        self._n += 1
+        return Tab(prefix='c%d' % self._n)
+
+    def put_term(self, tabs, term):
+        """register the term of the case run_impl is working on; returns its index"""
+        self._round.append([d for t in tabs for d in t.order])
+        self._terms.append(term)
+        return len(self._terms) - 1
+
+    @property
+    def case_requires(self):
+        chunk = self._round[self._shard_i * self.shard:(self._shard_i + 1) * self.shard]
+        self._shard_i += 1
+        return self.header + self.extra_requires + '\n'.join(d for defs in chunk for d in defs)
+
+    def coq_case(self, case, impl):
+        return self._terms[impl['_k']]
+
+    # ---- resolver runs shared by several cases of one input
+    def records_for(self, key, make_resolver):
+        if key not in self._reccache:
+            if len(self._reccache) > 64:
+                self._reccache.clear()
+            try:
+                resolver = make_resolver()
+            except Exception as exc:          # noqa: BLE001
+                self._reccache[key] = {'ctor_exc': type(exc).__name__}
+            else:
+                self._reccache[key] = {'recs': record_all(resolver)}
+        return self._reccache[key]
+
+
+def rec_summary(rec):
+    """small JSON-able description of a record for evidence / replay files"""
+    if 'skip' in rec:
+        return {'skip': rec['skip']}
+    out = {'aa': rec['aa'], 'stage': rec['stage'], 'exc': rec['exc']}
+    if rec.get('mol') is not None:
+        out['fine_nodes'] = len(rec['mol'])
+        out['coarse'] = [[k, dict(a).get('fragname'), [n for n, _, _ in g]]
+                         for (k, a, _), (_, g) in zip(rec['meta'], rec['fgs'])] if len(rec['meta']) == len(rec['fgs']) else None
+        out['fragid'] = [[n, dec_val(dict(a).get('fragid'))] for n, a, _ in rec['mol']][:40]
+    return out
+
+
+def py_virtual_not_last(rec):
+    """mirror of MapDefs.virtual_not_last on a record"""
+    names = {name for name, _ in rec['fd']}
+    cnt = 0
+    for k, a, _ in rec['prev']:
+        d = dict(a)
+        fn = d.get('atomname', d.get('fragname'))
+        if not isinstance(fn, str) or fn not in names:
+            continue
+        if k != cnt:
+            return True
+        cnt += 1
+    return False
+
+
+def add_virtual_tail(rng, base):
+    """append a fragment-less node by a zero-order edge at the END of the base text (the position the
+    current implementation handles)"""
+    if '|' in base:
+        return base
+    return base[:-1] + '.[#VV]}'
